@@ -46,7 +46,9 @@ def text_annotations(files):
 
 def specs_for(ctx, fam):
     quick = ctx.quick()
-    return repo_corpus(quick) + [annotation_unit(ctx)] + rand_specs(ctx, 3 if quick else 24, prefix="rg", verifdump=fam.bins.get("verifdump"))
+    # --split-internal: items are registered twice (namespace packages' metamini.go and package meta); the driver links both
+    split = ("cases_split", [TLS / "cases.tl"], ["--tl2WhiteList=*", "--split-internal"], "*", True)
+    return repo_corpus(quick) + [annotation_unit(ctx), split] + rand_specs(ctx, 3 if quick else 24, prefix="rg", verifdump=fam.bins.get("verifdump"))
 
 
 def le32(tag):
@@ -108,6 +110,13 @@ def run(ctx):
         onames = ordered[0].split(" ")[1:] if ordered and ordered[0].startswith("ok") else []
         if len(set(onames)) != len(onames):
             fam.oracle_fail(u, f"C17:dup-name:{u.name}", "duplicate names in GetAllTLItems()", {"items": onames})
+        # third lookup path: every element of the ordered list must be the item the model finds under that name
+        by_model = {l.split(" ")[1]: m for l, m in zip(lines, mo) if l.startswith("regname ")}
+        il = [f"regidx {i} {annarg}" for i in range(len(onames))]
+        io = run_lines_resilient(u.gen.exe, [], il, timeout=600)
+        fam.compare(u, il, [by_model.get(n, "none") for n in onames], io, "lookup-ordered-list")
+        if getattr(u, "ns_pkgs", None):
+            fam.add(split_units_linking_namespace_packages=1)
         items = {}
         bytop = {x["tlName"]: x for x in ins if x.get("topLevel") and x["kind"] in ("struct", "union")}
         declared = text_annotations(u.files)
@@ -123,7 +132,9 @@ def run(ctx):
                     fam.oracle_fail(u, f"C17:missing:{u.name}:{x['tlName']}", "top-level type of the schema is not registered", {"name": x["tlName"]})
         for l, g in zip(lines, go):
             if not g.startswith("ok ") or l == "regcount":
-                if l.split(" ")[0] == "regname" and l.split(" ")[1] in onames:
+                if l.split(" ")[0] == "regname" and l.split(" ")[1] in onames and g.startswith("panic"):
+                    fam.oracle_fail(u, f"C17:lookup:{u.name}:{l.split(' ')[1]}", f"looking the item up / creating its object panics: {g[:120]}", {"op": l, "go": g})
+                elif l.split(" ")[0] == "regname" and l.split(" ")[1] in onames:
                     fam.oracle_fail(u, f"C17:lost:{u.name}:{l.split(' ')[1]}", f"item listed by GetAllTLItems is not found by name: {g}", {"op": l, "go": g})
                 continue
             f = g.split(" ")
@@ -137,7 +148,7 @@ def run(ctx):
             if op == "regtag" and tag != int(arg):
                 fam.oracle_fail(u, sig, f"lookup by tag {arg} returned item with tag {tag:#x}", {"op": l, "go": g})
             if kv["namert"] != "same" or (tag != 0 and kv["tagrt"] != "same") or (tag == 0 and kv["tagrt"] != "none"):
-                fam.oracle_fail(u, sig, "by-name / by-tag lookups do not return the same item", {"op": l, "go": g})
+                fam.oracle_fail(u, sig, f"by-name / by-tag lookups do not return the same item (tagrt={kv['tagrt']}, by tag CreateObject -> {kv['factag']}, CreateFunction -> {kv['facfn']})", {"op": l, "go": g})
             if (kv["fn"] != "none") != (kv["fun"] == "true") or (kv["facfn"] != "none") != (kv["fun"] == "true"):
                 fam.oracle_fail(u, sig, "IsFunction disagrees with CreateFunction", {"op": l, "go": g})
             x = bytop.get(name)    # the schema's own statement about this item (kernel dump), independent of the Coq model
@@ -150,7 +161,7 @@ def run(ctx):
                 got = (tag, kv["fun"], kv["tl1"], kv["tl2"], kv["ann"])
                 if want != got:
                     fam.oracle_fail(u, sig, f"item flags (tag, function, TL1, TL2, annotations) {got} differ from the schema's {want}", {"op": l, "go": g, "schema": want})
-            if "!" in g or "?" in kv["ann"] or "unexpected" in g:
+            if "!" in g or "?" in kv["ann"] or "unexpected" in g or kv["factag"] == "panic" or kv.get("box", "ok") != "ok":
                 fam.oracle_fail(u, sig, "factory and meta disagree", {"op": l, "go": g})
         if sorted(items) != sorted(onames):
             fam.oracle_fail(u, f"C17:listing:{u.name}", "GetAllTLItems and the lookups disagree on the set of items",
